@@ -67,6 +67,12 @@ def cases(tier, seed):
         else:
             scn["pk"] = "solve"
             scn["pattern"] = [["solve"]]
+        if scn["pk"] != "solve" and rng.random() < 0.3:
+            # one more observer is attached while the search is under way (a do-nothing Listener): the record must not notice
+            pat = list(scn["pattern"])
+            pat.insert(int(rng.integers(1, len(pat))) if len(pat) > 1 else 1, ["listen"])
+            scn["pattern"] = pat
+            scn["late_listener"] = True
         out.append(scn)
     # runs driven (by iteration batches, which ignore eps) until the partition reaches adjacent doubles: the record must stay
     # valid at every step up to and including the moment the method gives up
@@ -222,7 +228,7 @@ def run_case(scn):
     T = prob.ng
     if scn.get("evq"):
         stepobs_evq = 1
-    obs = {"runs": 1, "runs_with_evolvent_queries_between_steps": int(bool(scn.get("evq"))), "trials": T, "items_checked": m.items_checked, "images_checked": m.images_checked,
+    obs = {"runs": 1, "runs_with_a_listener_attached_midway": int(bool(scn.get("late_listener"))), "runs_with_evolvent_queries_between_steps": int(bool(scn.get("evq"))), "trials": T, "items_checked": m.items_checked, "images_checked": m.images_checked,
            "insert_calls_checked": _insert_stats["calls"], "moments": sum(m.moments.values())}
     for k, v in m.moments.items():
         obs["moments_" + k] = v
@@ -237,7 +243,7 @@ def finalize(obs, tier, stats):
     need = 100000 if tier == "quick" else 2000000
     if obs.get("items_checked", 0) < need:
         return "only %d stored items audited (< %d)" % (obs.get("items_checked", 0), need), {}
-    miss = [k for k in ("moments_callback:iter", "moments_after:iter", "moments_after:solve", "insert_calls_checked", "images_checked", "collapse_runs", "faults_at_first_evaluation", "trials_after_a_fault", "runs_with_evolvent_queries_between_steps") if not obs.get(k)]
+    miss = [k for k in ("moments_callback:iter", "moments_after:iter", "moments_after:solve", "insert_calls_checked", "images_checked", "collapse_runs", "faults_at_first_evaluation", "trials_after_a_fault", "runs_with_evolvent_queries_between_steps", "runs_with_a_listener_attached_midway") if not obs.get(k)]
     if miss:
         return "never observed: %s" % miss, {}
     return None, {}
